@@ -9,7 +9,7 @@ from typing import Any, Callable, Dict, List, Optional, Sequence, Tuple
 import torch
 import z3
 
-from ..report import describe_function
+from ..report import describe_function, lazy
 from ..sym.runner import discharge
 from ..sym.scalar import Ctx, SInt, SReal, _sreal, approx
 from ..sym.tensor import Session, STensor
@@ -415,5 +415,5 @@ def run_config(pid: str, cfg: Dict[str, Any], props: Sequence[str], timeout: flo
 def encoded_functions() -> List[str]:
     import unit_scaling.optim as uo
     import unit_scaling.parameter as up
-    return [describe_function(f) for f in (uo.scaled_parameters, uo.lr_scale_func_adam, uo.lr_scale_func_sgd, uo.lr_scale_for_depth,
-                                           uo._get_fan_in, uo.SGD.__init__, uo.Adam.__init__, uo.AdamW.__init__, up.has_parameter_data)]
+    return [describe_function(f) for f in (lazy(lambda: uo.scaled_parameters), lazy(lambda: uo.lr_scale_func_adam), lazy(lambda: uo.lr_scale_func_sgd), lazy(lambda: uo.lr_scale_for_depth),
+                                           lazy(lambda: uo._get_fan_in), lazy(lambda: uo.SGD.__init__), lazy(lambda: uo.Adam.__init__), lazy(lambda: uo.AdamW.__init__), lazy(lambda: up.has_parameter_data))]
